@@ -130,11 +130,22 @@ def main():
                     if rng.random() < 0.5:
                         k = rng.randint(1, d - 1)
                         subsets.append(sorted(rng.sample(range(d), k)))
+                    # index families listed in another order than the sorted one (the whole family too, given explicitly)
+                    explicit = set()
+                    if rng.random() < 0.35:
+                        perm = rng.sample(range(d), d)
+                        if perm != sorted(perm):
+                            subsets.append(perm)
+                            explicit.add(tuple(perm))
+                    if rng.random() < 0.2 and d == 3:
+                        sub = rng.sample(range(d), 2)
+                        if sub != sorted(sub):
+                            subsets.append(sub)
                     for idx in subsets:
                         aa, bb = [a[i] for i in idx], [b[i] for i in idx]
                         if all(x < 0 < y for x, y in zip(aa, bb)):
                             continue
-                        full = len(idx) == d
+                        full = len(idx) == d and tuple(idx) not in explicit
                         ms = []
                         ms.append(model._mass_nd(list(aa), list(bb), None if full else list(idx)))
                         if d == 2 or len(idx) <= 2:
